@@ -9,8 +9,7 @@ RULE = ("TLC enumerates C07 configurations with momentum and schedulers x check 
 
 def run(ctx):
     if ctx.replay:
-        scen = [json.load(open(ctx.replay))["trace"]["scenario"]]
-        scen[0].pop("tid", None)
+        scen = ctx.replay_scenarios()
     else:
         scen = ctx.gen("Gen_C07", "Gen_C19", timeout=900)
         if ctx.quick:
